@@ -30,6 +30,22 @@ def gen(rng, tier, k):
     if cls == "dense_column":
         kw = dict(keys=rng.choice([1, 2]), n=rng.choice([12, 25]))
     spec = charts.gen_spec(rng, **kw)
+    if rng.random() < 0.12:
+        # consecutive notes of a column whose room (distance - gap) misses the threshold by a hair, either way: the rule is exact
+        gap_, thres_ = rng.choice([0, 50, 150]), rng.choice([0, 100, 100])
+        for ch in spec["charts"]:
+            t = 1000.0
+            col = 0
+            ch["hits"] = []
+            if "hit_x" in ch:
+                x0 = list(ch["hit_x"][0]) if ch["hit_x"] else None
+            for d in (-1e-9, 1e-9, -1e-6, 1e-6, -5e-4, 5e-4, 0.0, -4e-9):
+                ch["hits"] += [[t, col], [t + gap_ + thres_ + d, col]]
+                t += 5000.0
+                col = (col + 1) % max(1, ch["keys"])
+            if "hit_x" in ch:
+                ch["hit_x"] = [list(x0 if x0 is not None else _default_x(spec["game"])) for _ in ch["hits"]]
+        return dict(cls="near_threshold", spec=spec, history=[], convert=None, gap=gap_, thres=thres_)
     hist = charts.gen_history(rng) if cls == "history" else []
     conv = None
     if cls == "converted":
@@ -42,6 +58,10 @@ def gen(rng, tier, k):
 CONVERTERS = {"osu": ["OsuToQua", "OsuToSM", "OsuToBMS"], "qua": ["QuaToOsu", "QuaToSM", "QuaToBMS"],
               "sm": ["SMToOsu", "SMToQua", "SMToBMS"], "bms": ["BMSToOsu", "BMSToQua", "BMSToSM"],
               "o2j": ["O2JToOsu", "O2JToQua", "O2JToSM", "O2JToBMS"]}
+
+
+def _default_x(game):
+    return {"osu": [0, 0, 0, 0, 0, ""], "qua": [[]], "bms": [b""], "o2j": [0, 8]}.get(game, [])
 
 
 def setup(ctx):
